@@ -73,7 +73,7 @@ def install(reg):
     reg.add_class(ClassSpec(SRVM, fields={"adj": Obj("adjustments.Adjustments"), "effective_port": Int, "server_name": Str}))
     reg.add_class(ClassSpec(CHM, fields={"server": Obj(SRVM), "addr": TupleOf(Str, Int)},
                             env_methods={"check_client_disconnected": EnvSpec(returns=Bool)}))
-    reg.add(FuncContract(PARSER + ".get_body_stream", returns=Opaque("stream")))
+    reg.add(FuncContract(PARSER + ".get_body_stream", returns=Opaque("stream"), assume_invariant=False))    # assumed accessor: needs nothing of the parser
     T = "task.WSGITask"
     reg.add_class(ClassSpec(T, fields={"environ": Opt(Opaque("environ")), "request": Obj(PARSER, lazy=True), "channel": Obj(CHM), "version": Str}))
     E = "environ"
